@@ -1199,3 +1199,108 @@ def rule_area_terms(db, chk, cfg, rule="POLY.area"):
                 except Unsupported:
                     pass
     return n
+
+
+# ---------------------------------------------------------------------------
+# AXIS.homogeneous: x quantities are only added to / compared with x quantities (GetSegmentIntersectPt)
+# ---------------------------------------------------------------------------
+
+_CASTS = ("ImplicitCastExpr", "ParenExpr", "CStyleCastExpr", "CXXStaticCastExpr", "CXXFunctionalCastExpr", "ExprWithCleanups", "MaterializeTemporaryExpr")
+
+
+def rule_axis(db, chk, cfg, rule="AXIS.homogeneous", names=("GetSegmentIntersectPt",)):
+    """A units check with the two axes as the units: a value read from an `.x` member is an x quantity, one from `.y` a y quantity;
+    sums, differences, comparisons, min / max and the two arms of a conditional must not mix them, an assignment to `.x` takes an x
+    quantity; products and quotients are free.  In the high-precision intersection the local origin is the middle of the overlap of
+    the two bounding boxes, per axis: as a real-number formula the result does not depend on the origin at all (POLY.intersect
+    cannot see a wrong one), but an origin taken from the other axis is 2^39 away for a rectangle far out on one axis and the
+    doubles lose the low bits of the crossing."""
+    n = 0
+    for name in names:
+        for f in _insts(db, name):
+            env = {}
+            bad = []
+
+            def ax(e):
+                while isinstance(e, dict) and e.get("kind") in _CASTS and kids(e):
+                    e = kids(e)[0]
+                if not isinstance(e, dict):
+                    return None
+                k = e.get("kind")
+                if k == "MemberExpr":
+                    nm = e.get("name")
+                    if nm in ("x", "y"):
+                        return nm
+                    return None
+                if k == "DeclRefExpr":
+                    return env.get(e.get("referencedDecl", {}).get("id"))
+                if k == "BinaryOperator":
+                    op = e.get("opcode")
+                    a, b = ax(kids(e)[0]), ax(kids(e)[1])
+                    if op in ("+", "-", "<", ">", "<=", ">=", "==", "!="):
+                        if a in ("x", "y") and b in ("x", "y") and a != b:
+                            bad.append((e, "`%s` combines an %s quantity with a %s quantity" % (canon(e)[:70], a, b)))
+                        return (a or b) if op in ("+", "-") else None
+                    if op == "=":
+                        if a in ("x", "y") and b in ("x", "y") and a != b:
+                            bad.append((e, "`%s` stores a %s quantity into a %s coordinate" % (canon(e)[:70], b, a)))
+                        l = kids(e)[0]
+                        while isinstance(l, dict) and l.get("kind") in _CASTS and kids(l):
+                            l = kids(l)[0]
+                        if l.get("kind") == "DeclRefExpr":
+                            env[l.get("referencedDecl", {}).get("id")] = b
+                        return a or b
+                    if op in (">>", "<<"):
+                        return a
+                    return None
+                if k == "ConditionalOperator":
+                    ax(kids(e)[0])
+                    a, b = ax(kids(e)[1]), ax(kids(e)[2])
+                    if a in ("x", "y") and b in ("x", "y") and a != b:
+                        bad.append((e, "the arms of `%s` are an %s and a %s quantity" % (canon(e)[:70], a, b)))
+                    return a or b
+                if k == "UnaryOperator":
+                    return ax(kids(e)[0]) if e.get("opcode") in ("-", "+") else None
+                if k in ("CallExpr", "CXXMemberCallExpr"):
+                    nm = db.callee(e)[0]
+                    args = [ax(a) for a in db.call_args(e)]
+                    if nm in ("min", "max") and len(args) == 2:
+                        if args[0] in ("x", "y") and args[1] in ("x", "y") and args[0] != args[1]:
+                            bad.append((e, "`%s` compares an %s quantity with a %s quantity" % (canon(e)[:70], args[0], args[1])))
+                        return args[0] or args[1]
+                    return None
+                for c in kids(e):
+                    ax(c)
+                return None
+
+            def stmts(node):
+                for s0 in kids(node):
+                    if not isinstance(s0, dict):
+                        continue
+                    k = s0.get("kind")
+                    if k == "DeclStmt":
+                        for d in kids(s0):
+                            if d.get("kind") == "VarDecl":
+                                init = [c for c in kids(d) if isinstance(c, dict) and c.get("kind")]
+                                env[d.get("id")] = ax(init[-1]) if init else None
+                    elif k in ("CompoundStmt", "IfStmt", "WhileStmt", "ForStmt", "DoStmt", "SwitchStmt", "CaseStmt", "DefaultStmt"):
+                        if k == "IfStmt":
+                            ax(if_parts(s0)[0])
+                            for br in if_parts(s0)[1:]:
+                                if br is not None:
+                                    stmts({"inner": [br]}) if br.get("kind") != "CompoundStmt" else stmts(br)
+                        else:
+                            stmts(s0)
+                    elif k == "ReturnStmt":
+                        for c in kids(s0):
+                            ax(c)
+                    else:
+                        ax(s0)
+            stmts(f.body)
+            n += 1
+            chk.instance(rule, {"function": f.qual, "sig": f.sig[:60], "cfg": cfg}, ok=not bad)
+            if bad:
+                e, why = bad[0]
+                chk.violation(rule, f.qual, "%s|%s" % (f.sig[:30], e.get("line")), "%s: %s - the two axes are mixed (as a real-number formula the result may even be unchanged: a local origin "
+                              "taken from the other axis only costs precision, thousands of units for coordinates near 2^39)" % (f.qual, why), where(e), cfg=cfg)
+    return n
